@@ -13,38 +13,45 @@
 (*   Advance       time passes (one unit = 5 s, see below)                 *)
 (*   Tick          one pass of connectLoop: addressBook.limit(10,          *)
 (*                 isNotActive, backoffExpired, notDialing); calling:=true *)
-(*   Register      connect(): connections.getOrRegister(outbound)          *)
+(*   Register      connect(): connections.getOrRegister(outbound): an      *)
+(*                 existing connection -> return without back-off          *)
 (*   DialFail      dialer error: contact.backoff.Backoff()                 *)
 (*   DialCancel    dialer returns codes.Canceled: no back-off              *)
 (*   DialOK        dialer ok + protocol.CreateClientStream                 *)
 (*   SrvAccept     handleInboundStream: SendHeader(peerID, nodeDID)        *)
 (*   SrvAdmit      handleInboundStream: authenticate, getOrRegister        *)
 (*                 (inbound), registerStream, notify Connected             *)
-(*   CliHeaders    openOutboundStream: Header(), verifyOrSetPeerID,        *)
-(*                 node DID checks (bootstrap: + registerStream)           *)
+(*                 | ErrNodeDIDAuthFailed | ErrAlreadyConnected            *)
+(*   CliHeaders    openOutboundStream: Header() (error | headers),         *)
+(*                 verifyOrSetPeerID, node DID checks (ErrNodeDIDAuth-     *)
+(*                 Failed, ErrUnexpectedNodeDID -> Reset(24h));            *)
+(*                 bootstrap: + registerStream, notify Connected           *)
 (*   CliAuth       openOutboundStream: authenticate, setPeer,              *)
-(*                 registerStream, notify Connected                        *)
+(*                 registerStream | ErrAlreadyConnected; notify Connected  *)
 (*   CliGone       goroutine of openOutboundStreams: stream context done,  *)
 (*                 notify Disconnected, connection.disconnect()            *)
-(*   CliClose      connect() epilogue: closeError -> Backoff() |           *)
-(*                 Reset(random 1..5 s), remove connection                 *)
+(*   CliClose      connect() epilogue: closeError Unauthenticated ->       *)
+(*                 Backoff() | Reset(random 1..5 s); remove connection     *)
 (*   SrvDown       handleInboundStream after waitUntilDisconnected:        *)
 (*                 notify Disconnected, connections.remove                 *)
-(*   Reap          the handler goroutine is gone (book keeping)            *)
 (*   Drop          transport failure (environment)                         *)
 (*   Restart       Stop() + NewGRPCConnectionManager on the same bbolt     *)
 (*                 store + Start(): persisted back-offs survive            *)
 (*   Send / Take / Flush / Credit / CloseBox   conn.Send and startSending  *)
 (*                                                                         *)
+(* Deviations of the code are named constants: BootIdPlain, UnauthRace     *)
+(* (genuine defects, known_findings.json ids F-X01-..), WatcherPrompt (a  *)
+(* timing assumption), NoSelfGuard (where the guard lives).                *)
+(*                                                                         *)
 (* Time.  One model unit is 5 s of (fake) wall clock.  The reset after an  *)
 (* orderly disconnect, RandomBackoff(1s,5s), is a value in [1s,5s): it is  *)
 (* not expired before and always expired after one unit, hence Reset(1).   *)
 (* BoundedBackoff(min,max) multiplies by 1.5: with BMin = 4, BMax = 9 the  *)
-(* sequence 4,6,9,9.. is exact in integers.  Deadlines are kept as         *)
-(* REMAINING time (no absolute clock, no horizon): rem <= 0 means expired  *)
-(* for the in-memory back-off (deadline-now <= 0) and prem < 0 for a       *)
-(* persisted one (moment-now < 0); Inf never expires within a behaviour    *)
-(* (Reset(24h) after ErrUnexpectedNodeDID).                                *)
+(* sequence 4,6,9,9.. is exact in integers (Delay = 6 -> 9 as well).       *)
+(* Deadlines are kept as REMAINING time (no absolute clock, no horizon):   *)
+(* rem <= 0 means expired for the in-memory back-off (deadline-now <= 0)   *)
+(* and prem < 0 for a persisted one (moment-now < 0); Inf never expires    *)
+(* within a behaviour (Reset(24h) after ErrUnexpectedNodeDID).             *)
 (***************************************************************************)
 EXTENDS Integers, FiniteSets, Sequences, TLC
 
@@ -58,6 +65,12 @@ CONSTANTS
     MaxFeed, MaxRemove, MaxDialFail, MaxCancel, MaxAuthFail, MaxDrop, MaxRestart,   \* environment budgets
     Soft, Hard, MaxMsgs, MaxCredit,   \* outbox: soft limit (100), hard limit (5000), messages offered, transport window
     NoSelfGuard,   \* TRUE = code: connectToDID skips the node's own DID
+    BootIdPlain,   \* TRUE = code: an outbound bootstrap connection object takes the peer's plain peer ID from its headers, so the
+                   \*        inbound stream of the same peer, when that peer has no node DID, matches it ("already connected" for ever);
+                   \*        FALSE = repaired: the object is keyed <peer ID>-bootstrap, like the ID the dialler itself sends
+    UnauthRace,    \* TRUE = code: when the peer ends the stream with Unauthenticated, the goroutine watching the stream context may
+                   \*        cancel the connection before startReceiving stores the status (it then drops it): connect() sees no
+                   \*        closeError and does Reset(1..5 s) instead of Backoff().  FALSE = the status is always seen
     WatcherPrompt, \* TRUE = timing assumption: the goroutine that reports Disconnected for an outbound stream has run before
                    \*        the contact is dialled again (>= 1 s later).  FALSE = no assumption (Alternation can then be violated)
     Hist
@@ -174,7 +187,8 @@ Feed(m, k, to, dk) ==
                     /\ store' = IF dk = "nil" THEN store ELSE [store EXCEPT ![m] = Persist(m, k, b1)]
                     /\ due' = IF dk = "nil" THEN due ELSE [due EXCEPT ![m][k] = DelayVal(dk)]
                     /\ Log([a |-> "Feed", m |-> m, k |-> k, to |-> to, dk |-> dk, res |-> "moved"])
-       ELSE /\ call[m][k].cpc = "idle"                            \* modelling restriction: no re-add while the old contact object is still calling
+       ELSE \* (a call of a removed contact object may still be in flight, detached: the new object is not selected before it
+            \*  ended - in the code it is selected, finds the existing connection and returns at once)
             /\ LET b0 == NewContact(m, k, to)
                    b1 == IF dk = "nil" THEN b0 ELSE ResetOf(b0, DelayVal(dk))
                IN /\ cst' = [cst EXCEPT ![m][k] = b1]
@@ -220,19 +234,23 @@ Tick(m) ==
 EndCall(m, k, b) ==    \* calling := false, back-off state b written back
     IF call[m][k].det THEN cst[m][k] ELSE [b EXCEPT !.calling = FALSE]
 
+\* getOrRegister(outbound) created a connection object
+RegisterNew(m, k) ==
+    /\ call[m][k].cpc = "sel"
+    /\ conns' = [conns EXCEPT ![m] = @ \cup {[id |-> OutId(m, k), dir |-> "o", addr |-> call[m][k].to,
+                                                 did |-> (IF IsBoot(k) THEN None ELSE k), pid |-> "", auth |-> FALSE, str |-> {}, cx |-> FALSE, listed |-> TRUE]}]
+    /\ call' = [call EXCEPT ![m][k].cpc = "dial"]
+    /\ Log([a |-> "Register", m |-> m, k |-> k, res |-> "new"])
+    /\ UNCHANGED <<cst, store, inc, obs, due, bad, budget, box>>
+
 Register(m, k) ==
     /\ call[m][k].cpc = "sel"
     /\ IF OutExisting(m, k) # {}
        THEN /\ cst' = [cst EXCEPT ![m][k] = EndCall(m, k, cst[m][k])]     \* "stop calling, already has a connection": no back-off
             /\ call' = [call EXCEPT ![m][k].cpc = "idle", ![m][k].det = FALSE, ![m][k].dval = 0, ![m][k].to = None]
-            /\ UNCHANGED conns
             /\ Log([a |-> "Register", m |-> m, k |-> k, res |-> "existing"])
-       ELSE /\ conns' = [conns EXCEPT ![m] = @ \cup {[id |-> OutId(m, k), dir |-> "o", addr |-> call[m][k].to,
-                                                     did |-> (IF IsBoot(k) THEN None ELSE k), pid |-> "", auth |-> FALSE, str |-> {}, cx |-> FALSE, listed |-> TRUE]}]
-            /\ call' = [call EXCEPT ![m][k].cpc = "dial"]
-            /\ UNCHANGED cst
-            /\ Log([a |-> "Register", m |-> m, k |-> k, res |-> "new"])
-    /\ UNCHANGED <<store, inc, obs, due, bad, budget, box>>
+            /\ UNCHANGED <<store, conns, inc, obs, due, bad, budget, box>>
+       ELSE RegisterNew(m, k)
 
 \* the address the goroutine dials: contact.peer.Address read at dial time
 Target(m, k) == IF HasConn(m, OutId(m, k)) THEN ConnOf(m, OutId(m, k)).addr ELSE None
@@ -251,9 +269,13 @@ Epilogue(m, k, b, srvDead) ==
         shared == HasConn(m, own) /\ \E t \in ConnOf(m, own).str : t \notin {CTag(m, k), "x"}     \* a handler still waits on it
     IN /\ cst' = [cst EXCEPT ![m][k] = EndCall(m, k, b)]
        /\ store' = [store EXCEPT ![m] = Persist(m, k, b)]
-       /\ due' = [due EXCEPT ![m][k] = b.rem]
+       /\ due' = IF call[m][k].det THEN due ELSE [due EXCEPT ![m][k] = b.rem]     \* a detached object does not bind the new contact
        \* an inbound stream registered on this very object is disconnected with it; its handler still has to run SrvDown
-       /\ conns' = [conns EXCEPT ![m] = IF shared THEN Replace(m, own, [ConnOf(m, own) EXCEPT !.cx = TRUE, !.listed = FALSE, !.str = @ \ {CTag(m, k)}])
+       \* (the object lives on, unlisted and disconnected, under another identity until that handler has run)
+       /\ conns' = [conns EXCEPT ![m] = IF shared
+                                        THEN LET o == ConnOf(m, own)
+                                                 t == CHOOSE t \in o.str : t \notin {CTag(m, k), "x"}
+                                             IN Replace(m, own, [o EXCEPT !.id = "z/" \o t, !.cx = TRUE, !.listed = FALSE, !.str = @ \ {CTag(m, k)}])
                                         ELSE Without(m, own)]
        /\ call' = [call EXCEPT ![m][k] = Norm([call[m][k] EXCEPT !.cpc = "idle", !.det = FALSE, !.dval = 0, !.to = None,
                                                         !.dead = IF srvDead /\ call[m][k].spc \in {"new", "hdr", "up"} THEN TRUE ELSE @])]
@@ -356,19 +378,23 @@ SrvDown(m, k) ==
 (***************************************************************************)
 (* Outbound side: openOutboundStream                                       *)
 (***************************************************************************)
-CliHeaders(m, k) ==
+\* r = "error": Header() fails (transport gone, peer could not send headers); r = "proceed": the peer's headers arrived
+CliHeaders(m, k, r) ==
     LET n == call[m][k].srv
         own == ConnOf(m, OutId(m, k))
     IN
-    /\ call[m][k].cpc = "whdr" /\ call[m][k].spc \in {"hdr", "up", "ret"}
-    /\ IF call[m][k].dead \/ call[m][k].sst = "err"
+    /\ call[m][k].cpc = "whdr"
+    /\ r = "error" => (call[m][k].dead \/ call[m][k].sst = "err")
+    /\ r = "proceed" => (call[m][k].spc \in {"hdr", "up"} \/ (call[m][k].spc = "ret" /\ call[m][k].sst # "err"))
+    /\ IF r = "error"
        THEN /\ Epilogue(m, k, BackoffOf(Bo(m, k)), TRUE)                        \* "failed to read gRPC headers"
             /\ UNCHANGED <<obs, bad>>
             /\ Log([a |-> "CliHeaders", m |-> m, k |-> k, res |-> "error"])
        ELSE IF IsBoot(k)
-       THEN LET key == PeerKey(Pid(n), None, own.addr)
+       THEN LET bp == IF BootIdPlain THEN Pid(n) ELSE Pid(n) \o "-bootstrap"
+                key == PeerKey(bp, None, own.addr)
                 nt == Notify(obs[m], bad, key, "connected")
-            IN /\ conns' = [conns EXCEPT ![m] = Replace(m, own.id, [own EXCEPT !.pid = Pid(n), !.str = {CTag(m, k)}])]
+            IN /\ conns' = [conns EXCEPT ![m] = Replace(m, own.id, [own EXCEPT !.pid = bp, !.str = {CTag(m, k)}])]
                /\ call' = [call EXCEPT ![m][k].cpc = "up", ![m][k].w = "armed", ![m][k].wk = key]
                /\ obs' = [obs EXCEPT ![m] = nt[1]] /\ bad' = nt[2]
                /\ UNCHANGED <<cst, store, due>>
@@ -423,9 +449,10 @@ CliGone(m, k) ==
     /\ UNCHANGED <<cst, store, conns, inc, due, budget, box>>
 
 \* connect() after waitUntilDisconnected: closeError Unauthenticated -> Backoff(), else Reset(random 1..5 s); remove
-CliClose(m, k) ==
-    LET unauth == call[m][k].spc = "ret" /\ call[m][k].sst = "unauth" IN
+CliClose(m, k, lost) ==
+    LET unauth == call[m][k].spc = "ret" /\ call[m][k].sst = "unauth" /\ ~lost IN
     /\ Ended(m, k)
+    /\ lost => (UnauthRace /\ call[m][k].spc = "ret" /\ call[m][k].sst = "unauth")
     /\ Epilogue(m, k, IF unauth THEN BackoffOf(Bo(m, k)) ELSE ResetOf(Bo(m, k), 1), TRUE)
     /\ Log([a |-> "CliClose", m |-> m, k |-> k, res |-> (IF unauth THEN "backoff" ELSE "reset")])
     /\ UNCHANGED <<inc, obs, bad, budget, box>>
@@ -454,10 +481,11 @@ Restart(m) ==
     /\ cst' = [cst EXCEPT ![m] = [k \in Keys |-> NoContact]]
     /\ conns' = [conns EXCEPT ![m] = {}]
     /\ obs' = [obs EXCEPT ![m] = {}]
-    /\ store' = [store EXCEPT ![m] = [d \in DidKeys |->
-                    IF call[m][d].cpc \in {"up", "whdr", "cauth"} THEN [set |-> TRUE, rem |-> StopOp(m, d).rem, val |-> StopOp(m, d).val] ELSE store[m][d]]]
-    /\ due' = [due EXCEPT ![m] = [k \in Keys |-> IF IsBoot(k) THEN 0
-                                                 ELSE IF call[m][k].cpc \in {"up", "whdr", "cauth"} THEN StopOp(m, k).rem ELSE due[m][k]]]
+    /\ LET ns == [d \in DidKeys |->
+                    IF call[m][d].cpc \in {"up", "whdr", "cauth"} THEN [set |-> TRUE, rem |-> StopOp(m, d).rem, val |-> StopOp(m, d).val] ELSE store[m][d]]
+       IN /\ store' = [store EXCEPT ![m] = ns]
+          \* after a restart the promise is what the store holds (bootstrap contacts are not persisted: dialled at start-up)
+          /\ due' = [due EXCEPT ![m] = [k \in Keys |-> IF IsBoot(k) \/ ~ns[k].set THEN 0 ELSE IF ns[k].rem < 0 THEN 0 ELSE ns[k].rem]]
     /\ call' = [m2 \in Nodes |-> [k \in Keys |->
                   LET cr == call[m2][k] IN
                   IF m2 = m
@@ -509,14 +537,14 @@ Next ==
     \/ \E m \in Nodes, k \in Keys :
           \/ Register(m, k) \/ DialFail(m, k) \/ DialCancel(m, k) \/ DialOK(m, k)
           \/ (\E r \in {"dead", "headers"} : SrvAccept(m, k, r)) \/ (\E ok \in BOOLEAN : SrvAdmit(m, k, ok)) \/ SrvDown(m, k)
-          \/ CliHeaders(m, k) \/ (\E ok \in BOOLEAN : CliAuth(m, k, ok)) \/ CliClose(m, k) \/ CliGone(m, k)
+          \/ (\E r \in {"error", "proceed"} : CliHeaders(m, k, r)) \/ (\E ok \in BOOLEAN : CliAuth(m, k, ok)) \/ (\E lost \in BOOLEAN : CliClose(m, k, lost)) \/ CliGone(m, k)
           \/ Drop(m, k)
     \/ (\E ign \in BOOLEAN : Send(ign)) \/ Take \/ Flush \/ Credit \/ CloseBox
 
 Spec == Init /\ [][Next]_vars
 
 \* every goroutine of the code runs; time passes; the transport keeps granting window
-CliSide(m, k) == Register(m, k) \/ DialOK(m, k) \/ CliHeaders(m, k) \/ CliAuth(m, k, TRUE) \/ CliClose(m, k)
+CliSide(m, k) == Register(m, k) \/ DialOK(m, k) \/ (\E r \in {"error", "proceed"} : CliHeaders(m, k, r)) \/ CliAuth(m, k, TRUE) \/ (\E lost \in BOOLEAN : CliClose(m, k, lost))
 SrvSide(m, k) == (\E r \in {"dead", "headers"} : SrvAccept(m, k, r)) \/ SrvAdmit(m, k, TRUE) \/ SrvDown(m, k)
 FairSpec == /\ Spec
             /\ \A m \in Nodes : WF_vars(Tick(m))
@@ -554,6 +582,12 @@ BackoffShape ==
          (cst[m][k].on /\ cst'[m][k].on /\ cst'[m][k].val # cst[m][k].val) =>
              \/ cst'[m][k].val = NextVal(cst[m][k].val)         \* failure: x1.5 up to the cap
              \/ cst'[m][k].val \in {0, 1, Delay, Inf}]_vars       \* reset (delay of Connect, orderly disconnect, unexpected DID)
+\* a peer that refuses our node DID authentication is backed off from ("Otherwise, backoff isn't honored"); needs UnauthRace = FALSE
+RefusalBacksOff ==
+    [][\A m \in Nodes, k \in Keys :
+         (call[m][k].cpc = "up" /\ call'[m][k].cpc = "idle" /\ call[m][k].spc = "ret" /\ call[m][k].sst = "unauth" /\ cst[m][k].on /\ ~call[m][k].det
+            /\ inc' = inc)
+            => cst'[m][k].val = NextVal(cst[m][k].val)]_vars
 BackoffBounded == \A m \in Nodes, k \in Keys : cst[m][k].val <= BMax \/ cst[m][k].val = Inf \/ cst[m][k].val = Delay
 
 \* P3/P5/P7  ghost flags raised by the actions
